@@ -268,4 +268,26 @@ def wrap (S : RecordSpec) (now : Str) (record : Record) : Except Err Dict := do
   let pairs ← zipFields S.fields record
   mapME (fun (p : FieldSpec × Field) => do let v ← fieldValue p.1 now p.2; pure (p.1.name, v)) pairs
 
+/-- one value of `Mapping.to_astm()` : a scalar, the values of a component, or the values of each occurrence -/
+inductive AV
+  | leaf (v : V)
+  | comp (vs : List V)
+  | rep (items : List (List V))
+  deriving DecidableEq, Repr
+
+/-- `Mapping.to_astm()` : the stored values in declaration order, components and repeats as nested lists -/
+def toAstmOf (d : Dict) : List AV :=
+  d.map fun kv => match kv.2 with
+    | .scalar v => .leaf v
+    | .comp kvs => .comp (kvs.map (·.2))
+    | .rep items => .rep (items.map fun kvs => kvs.map (·.2))
+
+/-- the `to_astm()` list read as constructor arguments again -/
+def asRecord (vs : List AV) : Record :=
+  vs.map fun
+    | .leaf none => .null
+    | .leaf (some s) => .text s
+    | .comp items => .comp items
+    | .rep items => .rep items
+
 end Astm.Fields
